@@ -6,6 +6,7 @@
 -/
 import ConnectModel.Proto
 import ConnectProofs.Lemmas.Header
+import ConnectProofs.Lemmas.Sanitize
 import ConnectProofs.Lemmas.TrailerPrefix
 import ConnectProofs.C02
 import ConnectProofs.C05
@@ -47,31 +48,11 @@ theorem grpc_trailers_sent_failure (enc : WireErr → Bytes) (c : HConn) (p : HP
   exact C02.grpc_metadata_preserved enc p.trailer e hw hm k hk
 
 /-- values that survive an HTTP/1 header block unchanged: no CR/LF, no blank at either end -/
-def CleanValue (v : Bytes) : Prop :=
-  (∀ c ∈ v, c.toNat ≠ 10 ∧ c.toNat ≠ 13) ∧
-  (∀ c, v.head? = some c → isOWS c = false) ∧ (∀ c, v.getLast? = some c → isOWS c = false)
-
-theorem dropWhile_head_false (l : Bytes) (h : ∀ c, l.head? = some c → isOWS c = false) : l.dropWhile isOWS = l := by
-  cases l with
-  | nil => rfl
-  | cons c cs => simp [List.dropWhile, h c rfl]
+abbrev CleanValue (v : Bytes) : Prop := ConnectModel.CleanValue v
 
 /-- **web_trailer_block_roundtrip** (value level): a clean value is unchanged by the gRPC-Web
     trailer block (http.Header.Write + textproto parsing) -/
-theorem sanitize_clean (v : Bytes) (h : CleanValue v) : sanitizeValue v = v := by
-  obtain ⟨h1, h2, h3⟩ := h
-  have hmap : v.map (fun c => if c.toNat = 10 || c.toNat = 13 then (32 : UInt8) else c) = v := by
-    have : ∀ c ∈ v, (fun c : UInt8 => if c.toNat = 10 || c.toNat = 13 then (32 : UInt8) else c) c = c := by
-      intro c hc; have := h1 c hc; simp [this.1, this.2]
-    rw [List.map_congr_left this]; simp
-  simp only [sanitizeValue, hmap]
-  rw [dropWhile_head_false v h2]
-  have : v.reverse.dropWhile isOWS = v.reverse := by
-    apply dropWhile_head_false
-    intro c hc
-    rw [List.head?_reverse] at hc
-    exact h3 c hc
-  rw [this, List.reverse_reverse]
+theorem sanitize_clean (v : Bytes) (h : CleanValue v) : sanitizeValue v = v := sanitize_clean_core v h
 
 /-! ### Connect streaming: trailers travel in the end-of-stream message -/
 
